@@ -1,10 +1,10 @@
 # C11 — bulk calls f once per index, then completes once (structural part; DESIGN.md §5 C11)
 import re
 from engine.core import AnalysisBroken, P, T, callee_of, callee_short, cond_atoms, loc_of, strip, walk, subexprs, block_path
-from engine.kinds import FactFlow, CountFlow, precedes_on_all_paths, always_followed_by, loop_of, reaches
+from engine.kinds import FactFlow, CountFlow, precedes_on_all_paths, always_followed_by, loop_of, reaches, expand_locals, eval_tree, Unknown
 from engine.core import dominators
 from engine.completions import Completions, NS
-from .common import facts, lib, driver
+from .common import facts, lib, driver, local_init
 from . import C17
 
 EXPLANATION = (
@@ -35,7 +35,10 @@ def run(rep, tier):
     rep.rule("C11.R5", "generic bulk: f invoked inside the guard before the single value completion")
     rep.rule("C11.R6", "contiguous_index_queue pops each index at most once (C17.R1-R3)")
 
-    D = facts(rep, driver("c11_bulk.cpp"), [r"^pika::thread_pool_bulk_detail::", r"^pika::bulk_detail::"], [r"^pika::thread_pool_bulk_detail::operation_state$"])
+    # the one-line forwarding helpers do_work_local / task_function::do_work are read in place (flattened): the rules are
+    # about set_value and the task's operator() and hold whether or not those helpers exist
+    D = facts(rep, driver("c11_bulk.cpp"), [r"^pika::thread_pool_bulk_detail::", r"^pika::bulk_detail::"], [r"^pika::thread_pool_bulk_detail::operation_state$"],
+              flatten=[r"::bulk_receiver::do_work_local$", r"::task_function::do_work$"])
     C = Completions(D)
 
     def inst(q, pred=None):
@@ -48,7 +51,13 @@ def run(rep, tier):
         ff = FactFlow(fn)
         initq = [(b, i, ev) for b, i, ev in fn.all_events() if ev.get("k") == "call" and callee_short(ev) == "init_queue"]
         spawn = [(b, i, ev) for b, i, ev in fn.all_events() if ev.get("k") == "call" and callee_short(ev) == "do_work_task"]
-        local = [(b, i, ev) for b, i, ev in fn.all_events() if ev.get("k") == "call" and callee_short(ev) == "do_work_local"]
+        # the local run: a task_function built in place and invoked (do_work_local, flattened)
+        local = []
+        for b, i, ev in fn.all_events():
+            if ev.get("k") == "call" and callee_of(ev).endswith("::task_function::operator()") and ev.get("recv") is not None:
+                rc = strip(ev["recv"])
+                if rc.get("k") == "construct" and len(rc.get("args") or []) >= 4:
+                    local.append((b, i, dict(ev, args=rc["args"])))
         early = [(b, i, ev) for b, i, ev in fn.all_events() if ev.get("k") == "call" and callee_of(ev) == NS + "set_value"]
         probs = []
         if len(initq) != 1 or len(spawn) != 1 or len(local) != 1 or len(early) != 1:
@@ -70,19 +79,24 @@ def run(rep, tier):
         for lp, what in ((li, "init"), (ls, "spawn")):
             if lp:
                 exits = [cond_atoms(fn.blocks[b].cond)[0] for b in lp for l, t, _ in fn.blocks[b].succ if t not in lp and fn.blocks[b].cond is not None]
-                if not any(re.search(r"worker_thread < r\.op_state->num_worker_threads", a) for a in exits):
+                site = initq[0][2] if what == "init" else spawn[0][2]
+                wv = P(site["args"][0] if what == "init" else site["args"][-1])       # the loop variable is what the call is given
+                if not any(re.search(r"^%s < .*(->|\.)num_worker_threads$" % re.escape(wv), a) for a in exits):
                     probs.append("the %s loop is not bounded by num_worker_threads (%s)" % (what, exits))
         # the locally executed worker is exactly the one skipped in the spawn loop
         fbs = ff.before.get((spawn[0][0], spawn[0][1])) or frozenset()
-        if not any((not t) and "local_worker_thread" in a and "worker_thread" in a and "==" in a for a, t in fbs):
+        LW = P(local[0][2]["args"][3])                   # the worker index the local run uses
+        lw_init = local_init(fn, LW)
+        wv = P(spawn[0][2]["args"][-1])
+        if not any((not t) and re.search(r"(^|\W)%s($|\W)" % re.escape(LW), a) and re.search(r"(^|\W)%s($|\W)" % re.escape(wv), a) and "==" in a for a, t in fbs):
             probs.append("the spawn loop does not skip exactly the local worker")
-        if P(local[0][2]["args"][2]) != "local_worker_thread":
+        if lw_init is None or "get_local_worker_thread_num" not in T(lw_init):
             probs.append("the local run does not use the local worker's queue")
         if ls and local[0][0] in ls:
             probs.append("the local run happens inside the spawn loop")
         # empty shape
         fbe = ff.before.get((early[0][0], early[0][1])) or frozenset()
-        if not any(t and re.search(r"r\.op_state->shape == 0|0 == r\.op_state->shape", a) for a, t in fbe):
+        if not any(t and re.search(r"(->|\.)shape == 0$|^0 == .*(->|\.)shape$", a) for a, t in fbe):
             probs.append("the immediate value completion is not restricted to shape == 0")
         blk = fn.blocks[early[0][0]]
         if not any(e.get("k") == "return" for e in blk.events[early[0][1]:]):
@@ -97,14 +111,17 @@ def run(rep, tier):
     for fn in inst(TF + "::operator()"):
         fin = lambda e: e.get("k") == "call" and callee_short(e) == "finish"
         cf = CountFlow(fn, lambda ev, pos: 1 if fin(ev) else 0)
-        dw = [(b, i, ev) for b, i, ev in fn.all_events() if ev.get("k") == "call" and callee_short(ev) == "do_work"]
+        # the work loop: the loop visitor built and visited (task_function::do_work, flattened)
+        dw = [(b, i, ev) for b, i, ev in fn.all_events() if (ev.get("k") == "call" and callee_short(ev) == "do_work") or
+              (ev.get("k") in ("ctor", "construct") and str(ev.get("rec", "")).endswith("::set_value_loop_visitor") and not ev.get("copymove")) or
+              (ev.get("k") == "call" and subexprs(ev, lambda y: isinstance(y, dict) and y.get("k") == "construct" and str(y.get("rec", "")).endswith("::set_value_loop_visitor")))]
         hb = [h["block"] for t in fn.tries.values() for h in t["handlers"]]
         stores = any(e.get("k") == "call" and callee_short(e) == "store_exception" for h in hb for e in fn.blocks[h].events)
-        if cf.exits == frozenset([1]) and dw and dw[0][2].get("try") is not None and stores:
+        if cf.exits == frozenset([1]) and dw and all(x[2].get("try") is not None for x in dw) and stores:
             rep.ok("C11.R2", fn, "do_work() inside try, store_exception() in the handler, finish() exactly once on every path")
         else:
             rep.bad("C11.R2", fn, fn.loc, "task-body", "a worker task must run the loop inside try (%s), record an exception (%s) and call finish() exactly once (%s): "
-                    "otherwise bulk never completes or an exception escapes the task" % (bool(dw and dw[0][2].get("try") is not None), stores, sorted(cf.exits)))
+                    "otherwise bulk never completes or an exception escapes the task" % (bool(dw and all(x[2].get("try") is not None for x in dw)), stores, sorted(cf.exits)))
     LV = NSB + "::set_value_loop_visitor"
     # who may invoke the user callable: op_state->f is referenced (other than for the annotation) only in
     # task_function::do_work_chunk, which is reached only through do_work() - i.e. inside the try above
@@ -129,7 +146,7 @@ def run(rep, tier):
     for fn, b, i, ev in uses:
         short = fn.qname.rsplit("::", 1)[-1]
         if fn.qname == LV + "::do_work_chunk":
-            rep.ok("C11.R2", fn, "f is invoked in set_value_loop_visitor::do_work_chunk (reached only from task_function::do_work, under the task's exception guard)")
+            rep.ok("C11.R2", fn, "f is invoked in set_value_loop_visitor::do_work_chunk (reached only from the task's work loop, under its exception guard)")
         else:
             rep.bad("C11.R2", fn, loc_of(ev), "f-outside-guard:" + short, "the user callable is used in %s (%s), outside set_value_loop_visitor::do_work_chunk: an exception thrown "
                     "by f there is not recorded by store_exception() - it escapes a noexcept completion (std::terminate) instead of becoming set_error"
@@ -140,7 +157,8 @@ def run(rep, tier):
         for b, i, ev in fn.all_events():
             if ev.get("k") == "call" and callee_short(ev) == "do_work_chunk" and not fn.qname.startswith(LV + "::"):
                 rep.bad("C11.R2", fn, loc_of(ev), "chunk-outside-task", "do_work_chunk is called from %s, outside the worker task's exception guard" % fn.qname)
-            if ev.get("k") in ("ctor", "construct") and str(ev.get("rec", "")) == LV and not ev.get("copymove") and fn.qname != TF + "::do_work":
+            if ev.get("k") in ("ctor", "construct") and str(ev.get("rec", "")) == LV and not ev.get("copymove") and fn.qname != TF + "::do_work" and \
+                    not (fn.qname == TF + "::operator()" and ev.get("try") is not None):
                 rep.bad("C11.R2", fn, loc_of(ev), "visitor-outside-task", "the loop visitor (which invokes f) is created in %s, outside task_function::do_work" % fn.qname)
             if ev.get("k") == "call" and callee_short(ev) == "do_work" and callee_of(ev).startswith(TF) and \
                     not (fn.qname == TF + "::operator()" and ev.get("try") is not None):
@@ -191,15 +209,29 @@ def run(rep, tier):
     wide = lambda f: "unsigned long" in f.full and ", unsigned long," in f.full
     gcs = inst(NSB + "::get_chunk_size", wide)[0]
     lossy = []
-    for b, i, ev in gcs.all_events():
-        if ev.get("k") == "cast" and ev.get("wf", 0) > ev.get("wt", 64) and subexprs(ev["e"], lambda x: x.get("k") == "var" and x.get("name") in ("n", "chunk_size")):
-            lossy.append(ev)
+    if len(gcs.params) != 2:
+        raise AnalysisBroken("get_chunk_size: expected (num_threads, n)")
+    NT, NN = gcs.params[0]["name"], gcs.params[1]["name"]
     rets = [e for _, _, e in gcs.all_events() if e.get("k") == "return"]
-    cs_decl = [e for _, _, e in gcs.all_events() if e.get("k") == "decl" and e.get("var") == "chunk_size"]
+    RV = P(rets[0]["e"]) if len(rets) == 1 else None          # the chunk-size variable is the one that is returned
+    if RV is None:
+        raise AnalysisBroken("get_chunk_size: expected one return")
+    for b, i, ev in gcs.all_events():
+        if ev.get("k") == "cast" and ev.get("wf", 0) > ev.get("wt", 64) and subexprs(ev["e"], lambda x: x.get("k") == "var" and x.get("name") in (NN, RV)):
+            lossy.append(ev)
+    cs_decl = [e for _, _, e in gcs.all_events() if e.get("k") == "decl" and e.get("var") == RV]
     narrow_ret = not ("64" in (gcs.raw.get("ret") or "") or "unsigned long" in (gcs.raw.get("ret") or "") or "size_t" in (gcs.raw.get("ret") or ""))
     narrow_var = cs_decl and not any(x in cs_decl[0].get("type", "") for x in ("64", "unsigned long", "size_t"))
     # the loop's exit condition bounds the number of chunks: chunk_size * num_threads * 8 >= n
-    exit_ok = any(cond_atoms(blk.cond)[0].replace(" ", "") in ("((chunk_size*num_threads)*8)<n",) for blk in gcs.blocks.values() if blk.cond is not None)
+    # (decided by evaluating the loop condition, with named constants and casts of n folded, over sample points)
+    def bound_cond(c):
+        c = expand_locals(gcs, c)
+        try:
+            return all(bool(eval_tree(c, {RV: cs, NT: nt, NN: n})) == (cs * nt * 8 < n)
+                       for cs in (1, 2, 64, 1 << 20) for nt in (1, 3, 16) for n in (0, 1, 7, 8, 9, 383, 384, 385, 1 << 33))
+        except Unknown:
+            return False
+    exit_ok = any(bound_cond(blk.cond) for blk in gcs.blocks.values() if blk.cond is not None)
     if lossy or narrow_ret or narrow_var:
         what = []
         if lossy:
@@ -215,12 +247,16 @@ def run(rep, tier):
         rep.ok("C11.R4", gcs, "get_chunk_size computes in 64 bits and leaves with chunk_size*num_threads*8 >= n (number of chunks <= 8*num_threads + 1)")
     sv = inst(NSB + "::set_value", wide)[0]
     lossy = []
+    csv = [e["var"] for _, _, e in sv.all_events() if e.get("k") == "decl" and e.get("init") is not None and "get_chunk_size(" in T(e["init"])]
+    if len(csv) != 1:
+        raise AnalysisBroken("set_value: the local holding get_chunk_size()'s result was not found")
+    CSV = csv[0]
     for b, i, ev in sv.all_events():
-        if ev.get("k") == "cast" and ev.get("wf", 0) > ev.get("wt", 64) and subexprs(ev["e"], lambda x: x.get("k") in ("var", "mem") and x.get("name") in ("chunk_size", "shape")):
+        if ev.get("k") == "cast" and ev.get("wf", 0) > ev.get("wt", 64) and subexprs(ev["e"], lambda x: x.get("k") in ("var", "mem") and x.get("name") in (CSV, "shape")):
             lossy.append(ev)
         if ev.get("k") == "call" and callee_short(ev) in ("do_work_task", "do_work_local"):
             for a, pt in zip(ev["args"], ev.get("ptypes", [])):
-                if P(a) == "chunk_size" and not any(x in pt for x in ("64", "unsigned long", "size_t")) :
+                if P(a) == CSV and not any(x in pt for x in ("64", "unsigned long", "size_t")) :
                     lossy.append({"e": a, "wf": 64, "wt": 32, "loc": loc_of(ev)})
     if lossy:
         rep.bad("C11.R4", sv, loc_of(lossy[0]), "narrowing:set_value", "%s is narrowed from %s to %s bits on its way to the workers" % (T(lossy[0]["e"]), lossy[0]["wf"], lossy[0]["wt"]))
